@@ -149,7 +149,7 @@ def check(tier, seed, t0):
              ("cli", common.run_cli_cases("c03", cli_case, seed, "c16cli", total, 63 if tier == "quick" else 200))]
     if tier == "thorough":
         import sanitize
-        parts.append(("miri", sanitize.miri_leg("C16", 2)(tier, seed)))
+        parts.append(("miri", sanitize.miri_leg("C16", 1)(tier, seed)))
     rep = common.merge_reports(parts)
     cov = {"fault_points_enumerated": rep["counters"].get("lib.interrupted_runs", 0) + rep["counters"].get("lib.faulted_reads", 0),
            "legs_fully_enumerated": rep["counters"].get("lib.legs_with_every_stop_index_enumerated", 0)}
